@@ -8,8 +8,8 @@ use rtcp_types::{
     Unknown,
 };
 
-use crate::ast::Kind;
-use crate::custom::Custom;
+use crate::ast::{Fam, Kind};
+use crate::custom::{Custom, Custom16};
 use crate::render::*;
 
 // ---------------------------------------------------------------------------------------------
@@ -124,6 +124,173 @@ macro_rules! maybe_clone {
     ($r:expr) => {
         (&Probe($r)).maybe_clone()
     };
+}
+
+// ---------------------------------------------------------------------------------------------
+// `debug` (PROTOCOL.md §5): `Debug` formatting of every parsed value
+
+/// `format!("{:?}", v)` and `format!("{:#?}", v)`; the text is not part of the transcript.
+fn fmt_both<T: std::fmt::Debug + ?Sized>(v: &T) {
+    drop(format!("{:?}", v));
+    drop(format!("{:#?}", v));
+}
+
+/// `fmt_if_debug!(r)` for `r: &T` with a concrete `T`: `fmt_both(r)` if `T: Debug`, else nothing;
+/// decided at compile time like `maybe_clone!` (`Nack` and `Fir` have no `Debug` impl in today's
+/// crate: they are formatted should they get one).
+// (dead code as long as no probed type is `Debug`)
+struct DbgProbe<'r, T>(#[allow(dead_code)] &'r T);
+
+#[allow(dead_code)]
+trait ProbeDebug {
+    fn fmt_if_debug(&self);
+}
+
+impl<'r, T: std::fmt::Debug> ProbeDebug for DbgProbe<'r, T> {
+    fn fmt_if_debug(&self) {
+        fmt_both(self.0)
+    }
+}
+
+trait ProbeNoDebug {
+    fn fmt_if_debug(&self);
+}
+
+impl<'r, T> ProbeNoDebug for &DbgProbe<'r, T> {
+    fn fmt_if_debug(&self) {}
+}
+
+macro_rules! fmt_if_debug {
+    ($r:expr) => {
+        (&DbgProbe($r)).fmt_if_debug()
+    };
+}
+
+/// Formats at most `cap` elements of an iterator (driven with `next()` only).
+fn fmt_elems<I: Iterator>(it: I, cap: usize)
+where
+    I::Item: std::fmt::Debug,
+{
+    for e in it.take(cap) {
+        fmt_both(&e);
+    }
+}
+
+/// What the `debug` key formats of a parsed view: the value itself and (`extras`) the values its
+/// iterators yield. `len` bounds the walks of the FCI entry iterators.
+trait DebugAll: std::fmt::Debug {
+    fn extras(&self, _len: usize) {}
+
+    fn debug_all(&self, len: usize) {
+        fmt_both(self);
+        self.extras(len);
+    }
+}
+
+impl DebugAll for App<'_> {}
+impl DebugAll for Bye<'_> {}
+impl DebugAll for Unknown<'_> {}
+impl DebugAll for ReportBlock<'_> {}
+impl DebugAll for Rpsi<'_> {}
+impl DebugAll for Pli<'_> {}
+impl<const PT: u8, const MIN: usize> DebugAll for Custom<'_, PT, MIN> {}
+impl<const PT: u8, const MIN: usize> DebugAll for Custom16<'_, PT, MIN> {}
+
+impl DebugAll for ReceiverReport<'_> {
+    fn extras(&self, _len: usize) {
+        fmt_elems(self.report_blocks(), usize::MAX);
+    }
+}
+
+impl DebugAll for SenderReport<'_> {
+    fn extras(&self, _len: usize) {
+        fmt_elems(self.report_blocks(), usize::MAX);
+    }
+}
+
+impl DebugAll for Sdes<'_> {
+    fn extras(&self, _len: usize) {
+        for chunk in self.chunks() {
+            fmt_both(chunk);
+            for item in chunk.items() {
+                fmt_both(item);
+            }
+        }
+    }
+}
+
+impl DebugAll for Sli<'_> {
+    fn extras(&self, len: usize) {
+        fmt_elems(self.lost_macroblocks(), len + 8);
+    }
+}
+
+/// `Nack` / `Fir` (no `Debug` today): the value if it can be formatted, and its entries.
+fn debug_nack(n: &Nack, len: usize) {
+    fmt_if_debug!(n);
+    fmt_elems(n.entries(), 5 * len + 8);
+}
+
+fn debug_fir(f: &Fir, len: usize) {
+    fmt_if_debug!(f);
+    fmt_elems(f.entries(), len + 8);
+}
+
+/// The five `parse_fci` outcomes of a feedback packet: every `Ok` one like the FCI view of that
+/// kind.
+fn debug_fcis<'a, T: Feedback<'a>>(fb: &T, len: usize) {
+    if let Ok(n) = fb.fci::<Nack>() {
+        debug_nack(&n, len);
+    }
+    if let Ok(f) = fb.fci::<Fir>() {
+        debug_fir(&f, len);
+    }
+    if let Ok(s) = fb.fci::<Sli>() {
+        s.debug_all(len);
+    }
+    if let Ok(r) = fb.fci::<Rpsi>() {
+        r.debug_all(len);
+    }
+    if let Ok(p) = fb.fci::<Pli>() {
+        p.debug_all(len);
+    }
+}
+
+impl DebugAll for TransportFeedback<'_> {
+    fn extras(&self, len: usize) {
+        debug_fcis(self, len);
+    }
+}
+
+impl DebugAll for PayloadFeedback<'_> {
+    fn extras(&self, len: usize) {
+        debug_fcis(self, len);
+    }
+}
+
+impl DebugAll for Packet<'_> {
+    fn extras(&self, len: usize) {
+        match self {
+            Packet::App(p) => p.extras(len),
+            Packet::Bye(p) => p.extras(len),
+            Packet::Rr(p) => p.extras(len),
+            Packet::Sdes(p) => p.extras(len),
+            Packet::Sr(p) => p.extras(len),
+            Packet::TransportFeedback(p) => p.extras(len),
+            Packet::PayloadFeedback(p) => p.extras(len),
+            Packet::Unknown(p) => p.extras(len),
+        }
+    }
+}
+
+fn debug_val(r: Option<()>) -> String {
+    if r.is_some() { "ok" } else { "panic" }.to_string()
+}
+
+/// The `debug` step of a view: `P.debug=ok|panic`, everything `f` formats under one
+/// `catch_unwind`. Pushed after the accessor steps of the view.
+fn debug_step<'s>(st: &mut Steps<'s>, pfx: &'s str, f: impl Fn() + 's) {
+    st.kv(pfx, "debug", move |_| debug_val(guard(&f)));
 }
 
 // ---------------------------------------------------------------------------------------------
@@ -645,6 +812,7 @@ fn dump_fci(pfx: &str, kind: Kind, bytes: &[u8], base: Base, runs: &mut [Run]) {
                 if let Some(Ok(n)) = &r {
                     let mut st = Steps::new();
                     nack_steps(&mut st, pfx, "entries", "", n, len);
+                    debug_step(&mut st, pfx, move || debug_nack(n, len));
                     st.run(run.out, run.rev);
                 }
             }
@@ -656,6 +824,7 @@ fn dump_fci(pfx: &str, kind: Kind, bytes: &[u8], base: Base, runs: &mut [Run]) {
                 if let Some(Ok(f)) = &r {
                     let mut st = Steps::new();
                     fir_steps(&mut st, pfx, "entries", "", true, f, len);
+                    debug_step(&mut st, pfx, move || debug_fir(f, len));
                     st.run(run.out, run.rev);
                 }
             }
@@ -667,6 +836,7 @@ fn dump_fci(pfx: &str, kind: Kind, bytes: &[u8], base: Base, runs: &mut [Run]) {
                 if let Some(Ok(s)) = &r {
                     let mut st = Steps::new();
                     sli_steps(&mut st, pfx, "entries", "", s, len);
+                    debug_step(&mut st, pfx, move || s.debug_all(len));
                     st.run(run.out, run.rev);
                 }
             }
@@ -678,6 +848,7 @@ fn dump_fci(pfx: &str, kind: Kind, bytes: &[u8], base: Base, runs: &mut [Run]) {
                 if let Some(Ok(v)) = &r {
                     let mut st = Steps::new();
                     st.kv(pfx, "rpsi", move |rev| rpsi_str(v, base, rev));
+                    debug_step(&mut st, pfx, move || v.debug_all(len));
                     st.run(run.out, run.rev);
                 }
             }
@@ -686,6 +857,11 @@ fn dump_fci(pfx: &str, kind: Kind, bytes: &[u8], base: Base, runs: &mut [Run]) {
             let r = guard(|| Pli::parse(bytes));
             for run in runs.iter_mut() {
                 run.out.kv(pfx, "res", &pres(&r));
+                if let Some(Ok(v)) = &r {
+                    let mut st = Steps::new();
+                    debug_step(&mut st, pfx, move || v.debug_all(len));
+                    st.run(run.out, run.rev);
+                }
             }
         }
         _ => unreachable!("not an FCI kind"),
@@ -1114,6 +1290,9 @@ fn packet_runs(pfx: &str, bytes: &[u8], base: Base, runs: &mut [Run]) {
         if r.is_some() {
             st.kv(pfx, "typed.unknown", move |_| pres(&guard(|| Unknown::parse(bytes))));
         }
+        if let Some(Ok(p)) = &r {
+            debug_step(&mut st, pfx, move || p.debug_all(bytes.len()));
+        }
         st.run(run.out, run.rev);
     }
 }
@@ -1134,6 +1313,8 @@ fn next_str(c: &mut Compound) -> &'static str {
 /// what it yielded and on the exhausted iterator.
 fn compound_pass(out: &mut Out, pfx: &str, c: Compound, bytes: &[u8], base: Base, rev: bool) {
     let cap = bytes.len() / 4 + 8;
+    // `debug`: the `Compound` value as parsed, before anything is asked of it
+    let fresh_fmt = guard(|| fmt_both(&c));
     let c = std::cell::RefCell::new(c);
     let driven = guard(|| drive(&mut *c.borrow_mut(), cap));
     let hit_cap = matches!(driven, Some(Drive::Cap));
@@ -1188,6 +1369,18 @@ fn compound_pass(out: &mut Out, pfx: &str, c: Compound, bytes: &[u8], base: Base
             });
         }
     }
+    // `debug`: the value before iteration (above) and every `Ok(Packet)` it yielded
+    let driven = &driven;
+    st.kv(pfx, "debug", move |_| {
+        let members = guard(|| {
+            if let Some(Drive::Done(items)) = driven {
+                for pkt in items.iter().flatten() {
+                    pkt.debug_all(bytes.len());
+                }
+            }
+        });
+        debug_val(fresh_fmt.and(members))
+    });
     st.run(out, rev);
 }
 
@@ -1222,13 +1415,16 @@ fn compound_runs(pfx: &str, bytes: &[u8], base: Base, runs: &mut [Run]) {
 // ---------------------------------------------------------------------------------------------
 // custom
 
-fn custom_runs<const PT: u8, const MIN: usize>(
+/// The view of one third-party family (`custom_runs`: `Custom`, `custom16_runs`: `Custom16`).
+macro_rules! custom_runs_fn {
+    ($name:ident, $View:ident) => {
+fn $name<const PT: u8, const MIN: usize>(
     pfx: &str,
     bytes: &[u8],
     base: Base,
     runs: &mut [Run],
 ) {
-    let direct = guard(|| Custom::<PT, MIN>::parse(bytes));
+    let direct = guard(|| $View::<PT, MIN>::parse(bytes));
     for run in runs.iter_mut() {
         run.out.kv(pfx, "res", &pres(&direct));
         let mut st = Steps::new();
@@ -1243,7 +1439,7 @@ fn custom_runs<const PT: u8, const MIN: usize>(
                 None => ("panic".to_string(), "panic".to_string()),
                 Some(Err(_)) => ("n/a".to_string(), "n/a".to_string()),
                 Some(Ok(p)) => {
-                    let conv = guard(|| p.try_as::<Custom<PT, MIN>>());
+                    let conv = guard(|| p.try_as::<$View<PT, MIN>>());
                     let same = match (direct, &conv) {
                         (Some(a), Some(b)) => match guard(|| a == b) {
                             Some(s) => s.to_string(),
@@ -1256,9 +1452,17 @@ fn custom_runs<const PT: u8, const MIN: usize>(
             };
             emit(out, rev, pfx, &[("via_packet", &via), ("via_packet_same", &same)]);
         });
+        if let Some(Ok(c)) = direct {
+            debug_step(&mut st, pfx, move || c.debug_all(bytes.len()));
+        }
         st.run(run.out, run.rev);
     }
 }
+    };
+}
+
+custom_runs_fn!(custom_runs, Custom);
+custom_runs_fn!(custom16_runs, Custom16);
 
 // ---------------------------------------------------------------------------------------------
 // entry points
@@ -1274,6 +1478,7 @@ macro_rules! typed_runs {
                 header_steps(&mut $st, $pfx, $p);
                 $st.kv($pfx, "padding", move |_| pad_val(|| $p.padding()));
                 $body;
+                debug_step(&mut $st, $pfx, move || $p.debug_all($bytes.len()));
                 $st.run(run.out, run.rev);
             }
         }
@@ -1321,6 +1526,7 @@ fn dump_runs(pfx: &str, kind: Kind, bytes: &[u8], runs: &mut [Run]) {
                     header_steps(&mut st, pfx, p);
                     unknown_steps(&mut st, pfx, p, base);
                     unknown_pfrom_steps(&mut st, pfx, p);
+                    debug_step(&mut st, pfx, move || p.debug_all(bytes.len()));
                     st.run(run.out, run.rev);
                 }
             }
@@ -1334,6 +1540,7 @@ fn dump_runs(pfx: &str, kind: Kind, bytes: &[u8], runs: &mut [Run]) {
                 if let Some(Ok(rb)) = &r {
                     let mut st = Steps::new();
                     st.kv(pfx, "rb", move |rev| rb_str(rb, rev));
+                    debug_step(&mut st, pfx, move || rb.debug_all(bytes.len()));
                     st.run(run.out, run.rev);
                 }
             }
@@ -1341,8 +1548,11 @@ fn dump_runs(pfx: &str, kind: Kind, bytes: &[u8], runs: &mut [Run]) {
         Kind::Nack | Kind::Fir | Kind::Sli | Kind::Rpsi | Kind::Pli => {
             dump_fci(pfx, kind, bytes, base, runs)
         }
-        Kind::Custom(pt, min) => {
+        Kind::Custom(Fam::Custom, pt, min) => {
             crate::with_grid!(pt, min, custom_runs, [], (pfx, bytes, base, runs))
+        }
+        Kind::Custom(Fam::Custom16, pt, min) => {
+            crate::with_grid!(pt, min, custom16_runs, [], (pfx, bytes, base, runs))
         }
     }
 }
@@ -1453,6 +1663,27 @@ mod tests {
         ]);
         assert_eq!(v, ["x".to_string(), "y".to_string()]);
         assert_eq!(*log.borrow(), vec![1, 0]);
+    }
+
+    #[test]
+    fn debug_probe_and_panicking_debug() {
+        std::panic::set_hook(Box::new(|_| {}));
+        struct NoDebug;
+        struct Bomb;
+        impl std::fmt::Debug for Bomb {
+            fn fmt(&self, f: &mut std::fmt::Formatter<'_>) -> std::fmt::Result {
+                // only the pretty form panics
+                assert!(!f.alternate(), "boom");
+                f.write_str("Bomb")
+            }
+        }
+        // compiles and does nothing for a type without `Debug`, formats (and panics) with one
+        fmt_if_debug!(&NoDebug);
+        assert_eq!(debug_val(guard(|| fmt_if_debug!(&5u32))), "ok");
+        assert_eq!(debug_val(guard(|| fmt_if_debug!(&Bomb))), "panic");
+        assert_eq!(debug_val(guard(|| fmt_elems([1u8, 2].iter(), 1))), "ok");
+        assert_eq!(debug_val(guard(|| fmt_elems([Bomb].iter(), 8))), "panic");
+        assert_eq!(debug_val(guard(|| fmt_elems([Bomb].iter(), 0))), "ok");
     }
 
     #[test]
